@@ -73,6 +73,8 @@ def pC08 (d e : Doc) : String :=
   match inferDoc d, inferDoc e with
   | .ok sd, .ok _ =>
     if (srcs [d, d]).map (shapeEq sd) != some true then "violated: from_sources([d,d]) != from_str(d)"
+    else if (srcs [d, d, d]).map (shapeEq sd) != some true || (srcs (List.replicate 5 d)).map (shapeEq sd) != some true then
+      "violated: from_sources of 3 or 5 copies of d != from_str(d)"
     else if (srcs [d, .null]).map (shapeEq sd.asOptional) != some true
         || (srcs [.null, d]).map (shapeEq sd.asOptional) != some true then "violated: null absorption"
     else match srcs [d, e], srcs [e, d] with
